@@ -348,6 +348,22 @@ def run_generated(case):
                     return _res('cex', Z, t0, cex={'line': w, 'query': 'generated %s line with arguments %s, %s' % (label, k1, k2)}, failed='generated printer line is decoded wrongly')
                 if len(samples) < 3 and 'str' in (k1, k2):
                     samples.append(w)
+    # the longest lists libwayland can print: 20 arguments, every production twice, in two orders
+    for sent in (True, False):
+        for order in (1, -1):
+            ps = (list(prods.values()) * 2)[::order]
+            ps = [strprod(3 + 2 * i) if p is prods['str'] else p for i, p in enumerate(ps)]
+            seq = [ps[0]]
+            for q in ps[1:]:
+                seq += [R.lit(', '), q]
+            Gl = Z.re(G.line(dialect, sent, queue, conn, mark=False, args=R.cat(*seq)), 'plain')
+            r, w = Z.check([z3.InRe(x, Gl)], want_model_of=x, timeout_ms=60000)
+            if r != 'sat':
+                return _res('unknown', Z, t0, detail='could not generate a 20-argument line')
+            n += 1
+            ok, text = G.compare(w)
+            if not ok:
+                return _res('cex', Z, t0, cex={'line': w, 'query': 'generated %s line with 20 arguments' % label}, failed='generated printer line with 20 arguments is decoded wrongly')
     # empty argument list and the empty string
     for sent in (True, False):
         for args in (R.eps(), R.lit('""'), R.lit('"", ""'), R.lit('0, ""')):
